@@ -104,22 +104,52 @@ def frame_guard(ctx):
     an = ctx.an(b)
     g = ctx.graph(b)
     low = high = None
+    OPS = {"Lt": lambda x, y: x < y, "Le": lambda x, y: x <= y, "Gt": lambda x, y: x > y, "Ge": lambda x, y: x >= y,
+           "Eq": lambda x, y: x == y, "Ne": lambda x, y: x != y}
+
+    def is_len(x):
+        return bool(find_all(x, lambda y: y[0] == "select_out")) and bool(calls_in(x, "read_varint")) and x[0] != "binop"
     for blk in b.blocks:
         if blk.cleanup or blk.term.kind != "switch" or b.is_noise(blk.term):
             continue
         e, ls = an.switch_info(blk.idx)
-        if e[0] != "binop" or e[1] not in ("Le", "Lt", "Gt", "Ge"):
+        if e[0] != "binop" or e[1] not in OPS:
             continue
         a, c = flow.strip(e[2]), flow.strip(e[3])
+        MAX = 1000
 
-        def is_len(x):
-            return bool(find_all(x, lambda y: y[0] == "select_out")) and bool(calls_in(x, "read_varint")) and x[0] != "binop"
-        if is_len(a) and c[0] == "const":
-            # length <= 0  /  length < 1
-            if (e[1] == "Le" and c[2] == 0) or (e[1] == "Lt" and c[2] == 1):
-                low = (blk.idx, [(blk.idx, tb) for tb, l in ls.items() if "false" in l], [(blk.idx, tb) for tb, l in ls.items() if "true" in l])
-        if is_len(a) and self_field(c) == "max_packet_length" and e[1] == "Gt":
-            high = (blk.idx, [(blk.idx, tb) for tb, l in ls.items() if "false" in l], [(blk.idx, tb) for tb, l in ls.items() if "true" in l])
+        def val(x, length):
+            if is_len(x):
+                return length
+            if x[0] == "const" and isinstance(x[2], int):
+                return x[2]
+            if self_field(x) == "max_packet_length":
+                return MAX
+            return None
+
+        def truth(length):
+            p, q = val(a, length), val(c, length)
+            if p is None or q is None:
+                return None
+            return OPS[e[1]](p, q)
+        if not (is_len(a) or is_len(c)):
+            continue
+        edges = lambda lab: [(blk.idx, tb) for tb, l in ls.items() if lab in l]  # noqa: E731
+        is_const_cmp = (a[0] == "const" or c[0] == "const")
+        is_max_cmp = self_field(a) == "max_packet_length" or self_field(c) == "max_packet_length"
+        if is_const_cmp and truth(1) is not None:
+            # a lower bound: lengths 1.. take one edge, lengths ..0 the other (semantic test on sample points)
+            t1 = truth(1)
+            if truth(0) == (not t1) and truth(-7) == (not t1) and truth(2) == t1 and truth(MAX) == t1:
+                lab = "true" if t1 else "false"
+                rej = "false" if t1 else "true"
+                low = (blk.idx, edges(lab), edges(rej))
+        if is_max_cmp and truth(MAX) is not None:
+            tm = truth(MAX)
+            if truth(MAX + 1) == (not tm) and truth(MAX - 1) == tm and truth(1) == tm:
+                lab = "true" if tm else "false"
+                rej = "false" if tm else "true"
+                high = (blk.idx, edges(lab), edges(rej))
     ctx.check(low is not None, R, "C04/frame-guard/lower-bound", b.loc, reason="anchor-missing: no `length <= 0` rejection of the frame length", detail="guard: length <= 0 rejected")
     ctx.check(high is not None, R, "C04/frame-guard/upper-bound", b.loc, reason="anchor-missing: no `length > self.max_packet_length` rejection of the frame length",
               detail="guard: length > self.max_packet_length rejected")
@@ -311,6 +341,12 @@ def panic_sites(ctx):
             ctx.check(bool(ok), R, short_key, where[0], reason="guard rule failed for %s at %s: %s" % (key, where, why), detail="guarded: " + why)
             continue
         ent = entries.get(key)
+        if ent is None and kind == "call" and detail in ("Option::expect", "Option::unwrap", "Result::unwrap", "Result::expect"):
+            # generic discharge: the payload is taken on the edge of a dominating is_some()/is_ok()/match test of the same value
+            b0 = ctx.prog.lib_bodies[fn]
+            if all(_payload_guarded(ctx, b0, bb0) for bb0 in [x[4] for x in sites if x[0] == fn and x[1] == kind and x[2] == detail]):
+                ctx.ok(R, short_key, where[0], "guarded: payload taken after a dominating Some/Ok test of the same value")
+                continue
         if ent is None:
             ctx.fail(R, short_key, where[0],
                      "untriaged may-panic site(s) on the input path: %s `%s` in %s at %s — add a dominating guard or a reasoned entry to spec/panic_triage.json"
@@ -555,3 +591,31 @@ def _stays(b, bb, cs):
             return False
         work.extend(b.succ[x])
     return True
+
+
+def _cells(e):
+    return set((x[1], x[2]) for x in find_all(e, lambda y: y[0] == "cell"))
+
+
+def _payload_guarded(ctx, b, bb):
+    an = ctx.an(b)
+    g = ctx.graph(b)
+    t = b.blocks[bb].term
+    subj = an.operand_expr(t.args[0], (bb, "term"))
+    sc = _cells(subj)
+    ss = flow.strip(subj)
+    for blk in b.blocks:
+        if blk.cleanup or blk.term.kind != "switch" or b.is_noise(blk.term):
+            continue
+        e, ls = an.switch_info(blk.idx, opt=True)
+        x = flow.strip(e)
+        if x[0] == "call" and flow.short(x[1]).endswith(("Result::<T, E>::is_ok", "Result::is_ok")) and x[3]:
+            e = x[3][0]
+            ls = {tb: (["Ok"] if "true" in l else ["Err"]) for tb, l in ls.items()}
+        same = (sc and _cells(e) == sc) or flow.strip(e) == ss
+        if not same:
+            continue
+        good = [(blk.idx, tb) for tb, l in ls.items() if "Some" in l or "Ok" in l]
+        if good and g.must_pass(bb, cut_edges=good)[0]:
+            return True
+    return False
